@@ -123,3 +123,13 @@ Theorem C39_legacy_refuted :
   oracle w_like (Legacy.run w_like) = false.
 Proof. exact legacy_refuted_all. Qed.
 Print Assumptions C39_legacy_refuted.
+
+(* the pre-landed "fix: implicit unsigned to signed conversions wrapped" (C06), as far as a
+   comparison sees it: with the wrapping conversion Equals(Byte 200, SByte -56) was TRUE *)
+Theorem C39_legacy_refuted_wrap :
+  Legacy.equals_wrapping (VInt Byte 200) (VInt SByte (-56)) = Some true /\
+  ref_op Equals [VInt Byte 200; VInt SByte (-56)] = Some (VBool false) /\
+  Legacy.equals_wrapping (VInt UInt64 18446744073709551615) (VInt Int64 (-1)) = Some true /\
+  ref_op Equals [VInt UInt64 18446744073709551615; VInt Int64 (-1)] = Some (VBool false).
+Proof. exact legacy_refuted_wrap. Qed.
+Print Assumptions C39_legacy_refuted_wrap.
